@@ -157,7 +157,7 @@ class C18(vlib.Driver):
                                            prep=prep, obs_kind=obs_kind, source=source, mode=mode))
         for prep in ("fresh", "learned", "clone", "mutated"):       # the other source for the vector kind
             cases.append(self.one_case(rng, (5, 0.0, 0.7), prep=prep, obs_kind="vector", source="buffer", mode="combined"))
-        nseed = 70 if tier == "quick" else 600
+        nseed = 45 if tier == "quick" else 300
         for i in range(nseed):
             cfg = rng.choice(DYADIC + NONDYADIC)
             if tier == "quick" and cfg[0] > 21 and rng.random() < 0.6:
@@ -415,6 +415,14 @@ class C18(vlib.Driver):
             return "(Some " + self.qlist([x for row in p["proj"] for x in row]) + ")"
         prio = "None" if obs["prio"] is None else "(Some " + self.qlist(obs["prio"]) + ")"
         cfg = "{| natoms := %d%%nat; vmin := %s; vmax := %s |}" % (case["N"], coq_Q(case["vmin"]), coq_Q(case["vmax"]))
+        flags = self.case_branches(case, obs)
+        names = ["tz-clamped-low", "tz-clamped-high", "tz-unclamped", "b-integral:0", "b-integral:interior", "b-integral:N-1", "b-fractional"]
+        br = "[" + "; ".join("true" if n in flags else "false" for n in names) + "]"
+        s1, sn = self.samples(self.rows_of(case, obs, "1"), p1), self.samples(self.rows_of(case, obs, "n"), pn)
+        # the branch flags of the evidence histogram are re-derived by the model inside Coq and must coincide
+        return ("(let ss1 := %s in let ssn := %s in check_case %s %s %d%%nat %s %s ss1 ssn %s %s %s %s %s %s && branches_ok %s %s %d%%nat ss1 ssn %s)" % (
+            s1, sn, cfg, coq_Q(case["gamma"]), case["nstep"], coq_Q(case["prior_eps"]), mode, self.qlist(obs["support"]),
+            self.qmat(p1["q"]), self.qmat(pn["q"]), optflat(p1), optflat(pn), prio, cfg, coq_Q(case["gamma"]), case["nstep"], br))
         return ("check_case %s %s %d%%nat %s %s %s %s %s %s %s %s %s %s" % (
             cfg, coq_Q(case["gamma"]), case["nstep"], coq_Q(case["prior_eps"]), mode,
             self.samples(self.rows_of(case, obs, "1"), p1), self.samples(self.rows_of(case, obs, "n"), pn), self.qlist(obs["support"]),
@@ -525,6 +533,13 @@ class C18(vlib.Driver):
              case.get("prep", "fresh"), case.get("source", "direct"), case.get("obs_kind", "vector"))
         return repr(k)
 
+    def case_branches(self, case, obs):
+        br = set()
+        for part, g in (("1", Fraction(case["gamma"])), ("n", Fraction(case["gamma"]) ** case["nstep"])):
+            for r in self.rows_of(case, obs, part):
+                br |= self.row_branches(case, r, g)
+        return br
+
     def row_branches(self, case, row, g):
         """which arms of the model this row exercises (exact arithmetic)"""
         N = case["N"]
@@ -558,14 +573,13 @@ class C18(vlib.Driver):
                 f"gamma={case['gamma']}", f"B={case['B']}", f"A={case['A']}", f"partial_net_config={case['partial']}",
                 "weights=" + ("ones" if all(w == 1.0 for w in self.case_weights(case)) else "non-uniform"),
                 f"weights-shape={case.get('wshape', 'col')}"]
-        br = set()
         labs += [f"prep={case.get('prep', 'fresh')}", f"source={case.get('source', 'direct')}", f"obs_kind={case.get('obs_kind', 'vector')}"]
         if case["gamma"] == 0:
             labs.append("gamma=0")
-        for rows, g in ((self.rows_of(case, obs, "1"), case["gamma"]), (self.rows_of(case, obs, "n"), case["gamma"] ** case["nstep"])):
-            for r in rows:
+        for part in ("1", "n"):
+            for r in self.rows_of(case, obs, part):
                 labs.append(f"reward={r['cls']},done={int(r['d'])}")
-                br |= self.row_branches(case, r, g)
+        br = self.case_branches(case, obs)
         labs += [f"branch:{b}" for b in sorted(br)]
         if obs["errors"]:
             labs.append("impl-raised")
